@@ -138,6 +138,10 @@ def check(an, rep, tier):
                                % run2.tag())
     from .. import rules_api as _RA
     _RA.check_memoised(prog, rep, modules=None)
+    # hidden state: module-level objects modified by functions, memo wrappers,
+    # mutable defaults that are modified, memo tables with an insufficient key
+    from .. import rules_state as _RS
+    _RS.check_hidden_state(prog, rep, modules=None)
     rep.floor('A-kind', 100, 'calls with the other documented argument kind')
     rep.floor('A-fn', 90, 'public functions analysed')
     rep.floor('A-mut', 60, 'write sites classified')
